@@ -70,7 +70,9 @@ CLAIMED['C06'] = dict(
          'injective and sequential in start order, the (thread no, task no) pair identifies the actor consistently, every event '
          'is attributed to the trace of the actor that produced it, and a trace blocked at an unanswered prompt does not disable '
          'any label of another trace (non-interference relation). Tie: generated threaded/asyncio programs run through the '
-         'real spawned-side code vs the model (vm_compute), with a responder withholding answers for random traces. '
+         'real spawned-side code vs the model (vm_compute), with a responder withholding answers for random traces; probe lines are also written in TWO pieces across a suspension point '
+         '(tasks of one thread) or across thread / event-loop starts, so a line in progress while another actor writes must stay with the '
+         'trace that started it, and a reported line that no actor wrote is a violation. '
          'PARTIAL: the liveness half (other threads really keep running) depends on the GIL/OS scheduler and is only validated by the runs.',
     note='Trusted: Coq kernel; harness. Modelled: itertools.count atomic, weak-dict liveness, queue.Queue. No axioms.',
     technique='Coq invariant + non-interference proofs; differential correspondence on generated concurrent programs',
@@ -229,7 +231,10 @@ TIE2 = {
             'statement AST (Gen/RegistrarsFuns.v); Registrars/Tie.v proves for ALL registrar states and events that interpreting the regenerated bodies yields '
             'exactly the state and publication list of the model, and composed in pluggy\'s order a whole run = pubs_run (C11_tie_whole_run).  SYSTEM LEVEL: '
             'Props/C11System.v (from System/Pipeline.v) composes emitter (C09), relay (C10), registrars (C11) and broker (C08): for every program, schedule, '
-            'relay interleaving and kill point what reaches the hooks is a prefix of the emitted stream and the published state is closed out; tie: the '
+            'relay interleaving and kill point what reaches the hooks is a prefix of the emitted stream and the published state is closed out; the same '
+            'statements are proved OVER THE REGENERATED CODE of the three components (System/PipelineCode.v: emitter interpreter -> relay interpreter -> '
+            'registrars interpreter, C11_system_code_*: the registrars\' code fed what the relay code delivers never raises, is never cut short and '
+            'publishes exactly the model\'s sequence on every topic); tie: the '
             'registrars inside a real Nextline with the relay held in a slow hook while the run ends (harness/props/c11_system.py).',
             '; registrar source regenerated and proved equal to the model; end-to-end composition theorems'),
     'C14': (' SECOND TIE (every run): translate/arg_composer.py genuinely translates RunArgComposer.init/start/reset/compose_run_arg, RunNoCounter, the '
